@@ -85,6 +85,15 @@ def string(rng, maxlen=24, hostile=None):
             parts.append(''.join(xml_char(rng)
                                  for _ in range(rng.randint(1, 4))))
     s = ''.join(parts)
+    # markup and escape material placed exactly at the boundaries of the
+    # value (where splitting / trimming / folding logic goes wrong)
+    if rng.random() < 0.2:
+        s = rng.choice(SPECIAL_CHUNKS) + s
+    if rng.random() < 0.2:
+        s = s + rng.choice(SPECIAL_CHUNKS)
+    if rng.random() < 0.05:
+        c = rng.choice(SPECIAL_CHUNKS)
+        s = c * rng.randint(2, 3)
     if rng.random() < 0.3:
         s = rng.choice([' ', '\n', '\t', '\r', '  ']) + s
     if rng.random() < 0.3:
@@ -174,6 +183,16 @@ def f32(x):
 
 def real_value(rng, cimtype, nonfinite=True):
     r = rng.random()
+    if rng.random() < 0.12:
+        v = float('%de%d' % (rng.choice([1, 1, 2, 3, 5, 9, -1, -7]),
+                             rng.randint(-40, 40) if cimtype == 'real64'
+                             or rng.random() < 0.5 else rng.randint(-30, 30)))
+        if cimtype == 'real64':
+            if rng.random() < 0.3:
+                v = float('%de%d' % (rng.choice([1, -1, 4]),
+                                     rng.choice([100, 200, 300, -100, -300])))
+            return Real64(v)
+        return Real32(f32(v))
     if cimtype == 'real64':
         if r < 0.15 and nonfinite:
             v = rng.choice([float('inf'), float('-inf'), float('nan')])
